@@ -300,3 +300,6 @@ func HashStr(s string) uint64 {
 
 // PickFloat picks one of xs.
 func (r *R) PickFloat(xs ...float64) float64 { return xs[r.Intn(len(xs))] }
+
+// PickShape picks one of the shapes.
+func (r *R) PickShape(xs ...[]int) []int { return xs[r.Intn(len(xs))] }
